@@ -20,8 +20,7 @@ CLANG_FLAGS = ['-std=c++17', '-O1', '-Xclang', '-disable-llvm-passes', '-fno-exc
                '-I', os.path.join(REPO, 'src'), '-I', os.path.join(ROOT, 'wrappers')]
 OPT_FLAGS = ['-S', '-O1', '-vectorize-loops=false', '-vectorize-slp=false', '-unroll-threshold=0']
 
-CBMC_BASE = ['--unwinding-assertions', '--undefined-shift-check', '--drop-unused-functions',
-             '--max-field-sensitivity-array-size', '4096', '--no-malloc-may-fail', '--trace', '--verbosity', '8',
+CBMC_BASE = ['--unwinding-assertions', '--undefined-shift-check', '--drop-unused-functions', '--no-malloc-may-fail', '--trace', '--verbosity', '8',
              '--no-standard-checks', '--bounds-check', '--pointer-check', '--div-by-zero-check',
              '--pointer-primitive-check']
 
@@ -38,12 +37,13 @@ class Ob:
     """one proof obligation = one CBMC query (+ its witness twin)"""
     def __init__(s, props, name, unit, harness, entry, defs=(), unwind=4, unwindset=(), backend='minisat',
                  tier='quick', cap=150, mem_gb=10, flags=(), witness=True, validate=8, desc='', bound='',
-                 ptr_overflow=True, objbits=None, kf=None, hunwind=40, lunwind=()):
+                 ptr_overflow=True, objbits=None, kf=None, hunwind=40, lunwind=(), fs='default'):
         s.props = [props] if isinstance(props, str) else list(props)
         s.name, s.unit, s.harness, s.entry = name, unit, harness, entry
         s.defs, s.unwind, s.unwindset, s.backend = list(defs), unwind, list(unwindset), backend
         s.tier, s.cap, s.mem_gb, s.flags, s.witness, s.validate = tier, cap, mem_gb, list(flags), witness, validate
         s.desc, s.bound, s.ptr_overflow, s.objbits, s.kf = desc, bound, ptr_overflow, objbits, kf
+        s.fs = fs   # array field sensitivity: 'default' (<=64 elements), 'none', or an element count
         s.hunwind, s.lunwind = hunwind, list(lunwind)   # lunwind: [(regex on loop id, bound)] for library loops
 
 def sh(cmd, **kw):
@@ -202,6 +202,8 @@ def cbmc_cmd(b, ob, witness=False, backend=None):
     cmd += CBMC_BASE
     if ob.ptr_overflow: cmd += ['--pointer-overflow-check']
     if ob.objbits: cmd += ['--object-bits', str(ob.objbits)]
+    if ob.fs == 'none': cmd += ['--no-array-field-sensitivity']
+    elif ob.fs != 'default': cmd += ['--max-field-sensitivity-array-size', str(ob.fs)]
     cmd += ['-D' + d for d in ob.defs]
     if witness: cmd += ['-DWITNESS']
     cmd += BACKENDS[backend or ob.backend]
@@ -260,14 +262,8 @@ def run_cbmc(b, ob, witness=False, backend=None, cap=None):
     return res
 
 def parse_vin(out):
-    vals = {}
-    for m in re.finditer(r'^\s*VIN_LOG\[(\d+)l?\]=(-?\d+)', out, re.M):
-        k, v = int(m.group(1)), int(m.group(2))
-        vals[k] = v & (2**64 - 1)
-    if not vals: return []
-    ns = re.findall(r'^\s*VIN_N=(\d+)', out, re.M)
-    n = int(ns[-1]) if ns else max(vals) + 1
-    return [vals.get(k, 0) for k in range(min(n, 256))]
+    """successive values drawn by vin_u64() as shown in the CBMC trace"""
+    return [int(m.group(1)) & (2**64 - 1) for m in re.finditer(r'^\s*vin_value__=(-?\d+)', out, re.M)]
 
 # ------------------------------------------------------------------ one obligation, end to end
 def process_ob(b, ob, log, seed, replay_dir):
